@@ -54,12 +54,20 @@ Print Assumptions C14_password_terminated.
    request has an empty value (`empty_pwds`: the segment ends or '&' follows the '='; in particular when there is
    none), every byte of the Password field is unchanged.  The absent case is the corollary below.
    (Still decided by the monitor only: equality of the overflow part behind a *changed* name — effective password,
-   seeded change C14_m2 — and the Wi-Fi password submitted empty; see the report.) *)
+   seeded change C14_m2; see the report.) *)
 Theorem C14_empty_password_kept : forall sg d seg i,
   dev_ok d -> O_LocationPwd <= i < O_LocationPwd + PWD_MAX -> empty_pwds seg ->
   nthz (dcfg (fst (recv FIXED sg d seg))) i = nthz (dcfg d) i.
 Proof. exact C14_empty_password_kept_thm. Qed.
 Print Assumptions C14_empty_password_kept.
+
+(* The Wi-Fi password submitted empty keeps its previous value (one unsplit request): when every recognised field whose
+   destination is WIFI_PWD (that is wpw=) has an empty value — or there is none — all 64 bytes of WIFI_PWD are unchanged. *)
+Theorem C14_empty_wifi_password_kept : forall sg d seg i,
+  dev_ok d -> in_wifi i -> empty_wifi seg ->
+  nthz (dcfg (fst (recv FIXED sg d seg))) i = nthz (dcfg d) i.
+Proof. exact C14_empty_wifi_password_kept_thm. Qed.
+Print Assumptions C14_empty_wifi_password_kept.
 
 Theorem C14_absent_password_kept : forall sg d seg i,
   dev_ok d -> O_LocationPwd <= i < O_LocationPwd + PWD_MAX ->
